@@ -99,12 +99,23 @@ example : binop (· + ·) max (⟨0, [], 2, fun _ => (1 : Rat)⟩ : Fld Rat) ⟨
 
 /-- Field.mean(spaces) on BOTH code paths equals Field.integrate(spaces) divided by the total volume of the
     contracted sub-domains: the uniform path (`np.mean`, i.e. sum / count) because `count · scalar_weight` is the
-    total volume of sub-domains whose `total_volume` follows StructuredDomain's formula (hypothesis `hstd`, used on
-    this path only), the non-uniform path (`weight(1).sum · (1/total_volume)`) by construction. -/
+    total volume of sub-domains whose `total_volume` is the sum of their volume factors (`VolConsistent`: a theorem for
+    StructuredDomain's formula, the trusted-base hypothesis `4π = Σ dvol` for GLSpace/HPSpace; used on this path only), the non-uniform path (`weight(1).sum · (1/total_volume)`) by construction. -/
 theorem mean_eq_integrate_div_volume [Field K] [DecidableEq K] (f m h : Fld K) (sp : Spaces) (V : K)
     (hm : mean f sp = .ok m) (hi : integrate f sp = .ok h) (hV : totalVolume f.subs sp = .ok V)
-    (hstd : ∀ i, (f.subs.getD i default).tv = none) (hV0 : V ≠ 0) :
+    (hvc : ∀ s ∈ f.subs, VolConsistent s) (hV0 : V ≠ 0) :
     ∀ o, m.val o = h.val o * V⁻¹ := by
+  have hstd : ∀ i v, (f.subs.getD i default).dvol = .scalar v →
+      (f.subs.getD i default).totalVolume = .ok (((f.subs.getD i default).size : K) * v) := by
+    intro i v hv
+    by_cases hi' : i < f.subs.length
+    · have hmem : f.subs.getD i default ∈ f.subs := by
+        simp [List.getD_eq_getElem?_getD, List.getElem?_eq_getElem hi']
+      exact totalVolume_of_consistent_scalar _ v (hvc _ hmem) hv
+    · have : f.subs.getD i default = default := by
+        simp [List.getD_eq_getElem?_getD, List.getElem?_eq_none (Nat.le_of_not_lt hi')]
+      rw [this] at hv
+      cases hv
   unfold mean at hm
   unfold integrate at hi
   cases hsw : scalarWeight f.subs sp with
@@ -396,7 +407,7 @@ example :
     constant 1 over `spaces`), when every sub-domain has volume factors and StructuredDomain's `total_volume`. -/
 theorem total_volume_fibre [Field K] (subs : List (SubDom K)) (sp : Spaces) (l : List Nat) (V : K)
     (hp : parseSpaces sp subs.length = .ok l) (h : totalVolume subs sp = .ok V)
-    (hs : ∀ s ∈ subs, s.tv = none ∧ s.dvol ≠ .none) (o : Idx) :
+    (hs : ∀ s ∈ subs, VolConsistent s) (o : Idx) :
     V = sumOver (allIdx (sel true (maskOf subs.length l) (subs.map SubDom.size)))
           (fun c => prodOver l (fun i => dvolAt subs i (merge (maskOf subs.length l) o c))) :=
   totalVolume_eq_fibre_sum subs sp l V hp h hs o
@@ -406,7 +417,7 @@ theorem total_volume_fibre [Field K] (subs : List (SubDom K)) (sp : Spaces) (l :
     factors of the listed sub-domains. -/
 theorem mean_eq_weighted_average [Field K] [DecidableEq K] (f m h : Fld K) (sp : Spaces) (V : K)
     (hm : mean f sp = .ok m) (hi : integrate f sp = .ok h) (hV : totalVolume f.subs sp = .ok V)
-    (hs : ∀ s ∈ f.subs, s.tv = none ∧ s.dvol ≠ .none) (hV0 : V ≠ 0) :
+    (hs : ∀ s ∈ f.subs, VolConsistent s) (hV0 : V ≠ 0) :
     ∃ l, parseSpaces sp f.subs.length = .ok l ∧ ∀ o,
       m.val o =
         sumOver (allIdx (sel true (maskOf f.subs.length l) f.sizes)) (fun c =>
@@ -416,15 +427,7 @@ theorem mean_eq_weighted_average [Field K] [DecidableEq K] (f m h : Fld K) (sp :
             prodOver l (fun ind => dvolAt f.subs ind (merge (maskOf f.subs.length l) o c))))⁻¹ := by
   obtain ⟨l, hp, _, hval⟩ := integrate_eq_sum_weight f h sp hi
   refine ⟨l, hp, fun o => ?_⟩
-  have hstd : ∀ i, (f.subs.getD i default).tv = none := by
-    intro i
-    by_cases hi' : i < f.subs.length
-    · have : f.subs.getD i default ∈ f.subs := by
-        simp [List.getD_eq_getElem?_getD, List.getElem?_eq_getElem hi']
-      exact (hs _ this).1
-    · simp [List.getD_eq_getElem?_getD, List.getElem?_eq_none (Nat.le_of_not_lt hi')]
-      rfl
-  rw [mean_eq_integrate_div_volume f m h sp V hm hi hV hstd hV0 o, hval o]
+  rw [mean_eq_integrate_div_volume f m h sp V hm hi hV hs hV0 o, hval o]
   have hVs := total_volume_fibre f.subs sp l V hp hV hs o
   simp only [Fld.sizes]
   rw [← hVs]
@@ -445,7 +448,7 @@ def fibreVolume [Field K] (f : Fld K) (l : List Nat) (o : Idx) : K :=
 /-- `mean` without auxiliary hypotheses: wherever `mean(spaces)` is defined on sub-domains with volume factors and the
     fibre volume is non-zero, it is the volume-weighted average over the fibre (both code paths, any subset). -/
 theorem mean_weighted [Field K] [DecidableEq K] (f m : Fld K) (sp : Spaces) (hm : mean f sp = .ok m)
-    (hs : ∀ s ∈ f.subs, s.tv = none ∧ s.dvol ≠ .none)
+    (hs : ∀ s ∈ f.subs, VolConsistent s)
     (hW : ∀ l o, parseSpaces sp f.subs.length = .ok l → fibreVolume f l o ≠ 0) :
     ∃ l, parseSpaces sp f.subs.length = .ok l ∧ ∀ o,
       m.val o =
@@ -469,7 +472,7 @@ theorem mean_weighted [Field K] [DecidableEq K] (f m : Fld K) (sp : Spaces) (hm 
     over well-formed multi-indices of the remaining sub-domains). -/
 theorem var_eq_weighted_variance [Field K] [DecidableEq K] (nsq : K → K) (f g : Fld K) (sp : Spaces)
     (hreal : f.dt ≠ DT.complex → ∀ z, nsq z = z * z)
-    (hs : ∀ s ∈ f.subs, s.tv = none ∧ s.dvol ≠ .none)
+    (hs : ∀ s ∈ f.subs, VolConsistent s)
     (hW : ∀ l o, parseSpaces sp f.subs.length = .ok l → fibreVolume f l o ≠ 0)
     (h : var nsq f sp = .ok g) :
     ∃ l m, parseSpaces sp f.subs.length = .ok l ∧ mean f sp = .ok m ∧
@@ -500,6 +503,24 @@ example :
       fun i => (2 * i.headD 0 + i.tail.headD 0 + 1 : Nat)⟩
     (match var (fun z => z * z) f (.scalar 0) with | .ok m => [m.val [0], m.val [1]] | .error _ => []) = [16/25, 16/25]
     ∧ fibreVolume f [0] [0] = 5/2 := by
+  decide +kernel
+
+/-- `VolConsistent` (total volume of a sub-domain = sum of its volume factors), the hypothesis of the weighted-average
+    theorems, is a THEOREM for every sub-domain that uses StructuredDomain's `total_volume` (RGSpace, LMSpace,
+    PowerSpace, DOFSpace …); for GLSpace / HPSpace (`tv = some …`: `4*np.pi` resp. a float product) it is exactly the
+    statement `total_volume = Σ dvol`, listed in the trusted base and checked numerically by the harness. -/
+theorem structured_volume_consistent [Field K] (s : SubDom K) (hdv : s.dvol ≠ .none) :
+    (s.tv = none → VolConsistent s) ∧
+    (∀ T, s.tv = some T → (VolConsistent s ↔ T = sumOver (List.range s.size) (subW s))) := by
+  refine ⟨fun htv => volConsistent_of_structured s htv hdv, fun T hT => ?_⟩
+  simp only [VolConsistent, subTV, hT]
+  exact ⟨fun h => h.2, fun h => ⟨hdv, h⟩⟩
+
+-- non-vacuity: a GLSpace-like sub-domain (weights [1/2, 2], total_volume given as 5/2): mean over it is Σwx/Σw
+example :
+    let f : Fld Rat := ⟨0, [⟨[2], .vector #[1/2, 2], some (5/2)⟩], DT.float, fun i => if i.headD 0 = 0 then 3 else 5⟩
+    (match mean f .none with | .ok m => m.val [] | .error _ => 0) = 23/5 ∧
+    subTV (f.subs.headD default) = sumOver (List.range 2) (subW (f.subs.headD default)) := by
   decide +kernel
 
 /-! ### point-wise arithmetic and comparisons: element-wise (Field) and key-wise (MultiField) semantics -/
@@ -857,9 +878,9 @@ theorem integrate_driver (f g : Fld CRat) (sp : Spaces) (h : integrate f sp = .o
 
 theorem mean_driver (f m h : Fld CRat) (sp : Spaces) (V : CRat)
     (hm : mean f sp = .ok m) (hi : integrate f sp = .ok h) (hV : totalVolume f.subs sp = .ok V)
-    (hstd : ∀ i, (f.subs.getD i default).tv = none) (hV0 : V ≠ 0) :
+    (hvc : ∀ s ∈ f.subs, @VolConsistent CRat CRat.instField s) (hV0 : V ≠ 0) :
     ∀ o, m.val o = h.val o * V⁻¹ :=
-  @mean_eq_integrate_div_volume CRat CRat.instField _ f m h sp V hm hi hV hstd hV0
+  @mean_eq_integrate_div_volume CRat CRat.instField _ f m h sp V hm hi hV hvc hV0
 
 theorem var_driver (f g : Fld CRat) (sp : Spaces) (hc : f.dt = DT.complex) (h : var CRat.nsq f sp = .ok g) :
     ∃ m l d g', mean f sp = .ok m ∧ parseSpaces sp f.subs.length = .ok l ∧
@@ -876,7 +897,7 @@ theorem vdot_driver (f g r : Fld CRat) (hc : f.dt = DT.complex) (h : vdot CRat.c
   exact ⟨hd, hfull (by simp)⟩
 
 theorem mean_weighted_driver (f m : Fld CRat) (sp : Spaces) (hm : mean f sp = .ok m)
-    (hs : ∀ s ∈ f.subs, s.tv = none ∧ s.dvol ≠ .none)
+    (hs : ∀ s ∈ f.subs, @VolConsistent CRat CRat.instField s)
     (hW : ∀ l o, parseSpaces sp f.subs.length = .ok l → @fibreVolume CRat CRat.instField f l o ≠ 0) :
     ∃ l, parseSpaces sp f.subs.length = .ok l ∧ ∀ o,
       m.val o =
@@ -887,7 +908,7 @@ theorem mean_weighted_driver (f m : Fld CRat) (sp : Spaces) (hm : mean f sp = .o
   @mean_weighted CRat CRat.instField _ f m sp hm hs hW
 
 theorem var_weighted_driver (f g : Fld CRat) (sp : Spaces) (hc : f.dt = DT.complex)
-    (hs : ∀ s ∈ f.subs, s.tv = none ∧ s.dvol ≠ .none)
+    (hs : ∀ s ∈ f.subs, @VolConsistent CRat CRat.instField s)
     (hW : ∀ l o, parseSpaces sp f.subs.length = .ok l → @fibreVolume CRat CRat.instField f l o ≠ 0)
     (h : var CRat.nsq f sp = .ok g) :
     ∃ l m, parseSpaces sp f.subs.length = .ok l ∧ mean f sp = .ok m ∧
@@ -898,6 +919,20 @@ theorem var_weighted_driver (f g : Fld CRat) (sp : Spaces) (hc : f.dt = DT.compl
               prodOver l (fun ind => dvolAt f.subs ind (merge (maskOf f.subs.length l) o c))) *
           (@fibreVolume CRat CRat.instField f l o)⁻¹ :=
   @var_eq_weighted_variance CRat CRat.instField _ CRat.nsq f g sp (fun hne => absurd hc hne) hs hW h
+
+/-- the element operations the driver uses: `<` on exact complex rationals is NumPy's lexicographic order; with them
+    the point-wise theorems hold for the driver's `fieldBin` -/
+theorem pointwise_driver (o : BinOp) (rev : Bool) (f g r : Fld CRat) (a b : CRat)
+    (h : fieldBin CRat.elemOps o rev f g = .ok r) :
+    (g.dom = f.dom ∧ r.subs = f.subs ∧
+      ∀ i, r.val i = if rev then evalBin CRat.elemOps o (g.val i) (f.val i)
+                     else evalBin CRat.elemOps o (f.val i) (g.val i)) ∧
+    (CRat.elemOps.lt a b = true ↔ a.re < b.re ∨ (a.re = b.re ∧ a.im < b.im)) ∧
+    funite CRat.elemOps f g = fieldBin CRat.elemOps .add false f g ∧
+    fflex CRat.elemOps f g true = fieldBin CRat.elemOps .sub false f g := by
+  obtain ⟨h1, _, h3, h4⟩ := (@pointwise_binop_elementwise CRat CRat.instField _ CRat.elemOps o rev f g).2 r h
+  refine ⟨⟨h1, h3, h4⟩, ?_, rfl, rfl⟩
+  simp [CRat.elemOps, CRat.lt]
 
 end Driver
 
